@@ -79,7 +79,8 @@ EXPECTED_PROBES = ["split-run", "split-fill-compute", "split-fill-request", "zip
                    "three-or-more-branches", "multi-block", "stopping-branch-not-last",
                    "acc-empty-context-yielded", "acc-wrapper", "scribble-then-compute",
                    "compute-twice-no-fill", "makefilename-in-two-branches", "nested-split-or-zip-branch",
-                   "several-results-per-compute"]
+                   "several-results-per-compute", "bare-event-objects-as-values",
+                   "one-updatecontext-instance-in-two-branches"]
 
 _TIER = ["quick"]
 
@@ -95,11 +96,25 @@ class Spec(object):
 # --------------------------------------------------------------------------
 # object graph helpers
 
+class Ev(object):
+    """a user's event object: hashable (by identity) and mutable"""
+
+    def __init__(self, i):
+        self.i = i
+        self.items = [i]
+
+
 def containers(x, acc=None, depth=0):
-    """every dict / list reachable from x (through dicts, lists, tuples)"""
+    """every dict / list / event object reachable from x (through dicts, lists, tuples)"""
     if acc is None:
         acc = {}
     if depth > 12:
+        return acc
+    if isinstance(x, Ev):
+        if id(x) in acc:
+            return acc
+        acc[id(x)] = x
+        containers(x.items, acc, depth + 1)
         return acc
     if isinstance(x, dict):
         if id(x) in acc:
@@ -143,6 +158,8 @@ def canon(x, depth=0):
         return ("num", Fraction(x)) if x.is_finite() else ("dec", str(x))
     if isinstance(x, lena.structures.histogram):
         return ("histogram", canon(x.edges, depth + 1), canon(x.bins, depth + 1))
+    if isinstance(x, Ev):
+        return ("ev", x.i, canon(x.items, depth + 1))
     if isinstance(x, tuple):
         return ("t",) + tuple(canon(y, depth + 1) for y in x)
     if isinstance(x, list):
@@ -194,6 +211,31 @@ class UCtx(object):
         ctx = value[1]
         ctx["tags"].append(self.code)
         ctx.setdefault("seen", {})["b%d" % self.b] = self.code
+        return value
+
+
+class UObj(object):
+    """user mutator: changes the event object in place (bare objects or tuples of them as values)"""
+
+    def __init__(self, code):
+        self.code = code
+
+    def __call__(self, value):
+        ev = value[0] if isinstance(value, tuple) else value
+        ev.items.append(self.code)
+        return value
+
+
+class UPicked(object):
+    """user mutator: appends to the list UpdateContext put under context.picked"""
+
+    def __init__(self, code):
+        self.code = code
+
+    def __call__(self, value):
+        p = value[1].get("picked")
+        if isinstance(p, list):
+            p.append(self.code)
         return value
 
 
@@ -281,7 +323,14 @@ def make_shared_variable():
     return v
 
 
-MUTATORS = ["uctx", "udata", "var", "upd", "mkf", "count", "sharedvar"]
+def make_shared_update():
+    """one UpdateContext instance used by several branches: it copies a value of the context to
+    another place; the key is missing and its (mutable) default is used - every value must get
+    its own copy of it"""
+    return lena.context.UpdateContext("picked", "{{absent.key}}", value=True, default=[])
+
+
+MUTATORS = ["uctx", "udata", "var", "upd", "mkf", "count", "sharedvar", "sharedupd"]
 
 
 def gen_split(tape, sc):
@@ -290,6 +339,9 @@ def gen_split(tape, sc):
     sc.nb = 1 + tape.draw(4, "branches")
     sc.bufsize = tape.choice([1000, 2, 1, 3, None], "bufsize")
     sc.n = tape.draw(8, "flowlen")
+    # what the values are: (data list, context) pairs, or bare event objects of a user's class
+    # (hashable, mutable), or 1-tuples of them
+    sc.shape = tape.weighted([(6, "pair"), (1, "object"), (1, "object-tuple")], "value-shape")
     sc.branches = []
     for b in range(sc.nb):
         br = Spec()
@@ -305,8 +357,12 @@ def gen_split(tape, sc):
             m = tape.choice(MUTATORS, "mutator")
             if m == "count" and br.kind == "seq":
                 m = "uctx"
+            if sc.shape != "pair":
+                m = "uobj"
             br.muts.append(m)
         br.acc = tape.choice(["store", "sum", "count", "hist"], "acc") if br.kind != "seq" else None
+        if sc.shape != "pair" and br.acc is not None:
+            br.acc = "store"
         br.slice = None
         if sc.driver == "run" and br.kind != "seq" and tape.chance(1, 3, "slice"):
             br.slice = tape.draw(sc.n + 1, "slice-stop")
@@ -328,7 +384,11 @@ def gen_split(tape, sc):
     return sc
 
 
-def make_flow(n, ctx_class=dict):
+def make_flow(n, ctx_class=dict, shape="pair"):
+    if shape == "object":
+        return [Ev(i) for i in range(n)]
+    if shape == "object-tuple":
+        return [(Ev(i),) for i in range(n)]
     return [([i], ctx_class({"src": {"i": i}, "tags": []})) for i in range(n)]
 
 
@@ -352,6 +412,11 @@ def build_branch(sc, b, store, sub=0):
         elif m == "sharedvar":
             muts.append(sc.shared_var)
             muts.append(UVarRange(code))
+        elif m == "sharedupd":
+            muts.append(sc.shared_upd)
+            muts.append(UPicked(code))
+        elif m == "uobj":
+            muts.append(UObj(code))
         else:
             muts.append(lena.core.FillInto(lena.flow.Count("c%d" % b)))
     if br.slice is not None:
@@ -397,6 +462,7 @@ def drive(sc, which, flow, stores, res=None):
     """Run the branches *which* (indices) under the scenario's driver.
     Returns the list of results, or for request drivers the list of chunks."""
     sc.shared_var = make_shared_variable()      # the same object in every branch of this run
+    sc.shared_upd = make_shared_update()
     seqs = [as_seq(sc, b, build_branch(sc, b, stores[b]), stores[b]) for b in which]
     d = sc.driver
     if d == "run":
@@ -447,6 +513,11 @@ def run_split(tape, res, sc):
                "zip-compute": "zip-compute", "zip-request": "zip-request"}[d])
     if sc.nb >= 3:
         res.probe("three-or-more-branches")
+    if sc.shape != "pair":
+        res.probe("bare-event-objects-as-values")
+        res.say("  the values are %s" % ("bare event objects" if sc.shape == "object" else "1-tuples of event objects"))
+    if sum(1 for br in sc.branches if "sharedupd" in br.muts) >= 2:
+        res.probe("one-updatecontext-instance-in-two-branches")
     if sc.bufsize is not None and sc.bufsize < sc.n and d == "run":
         res.probe("multi-block")
     if sum(1 for br in sc.branches if "mkf" in br.muts) >= 2:
@@ -471,14 +542,14 @@ def run_split(tape, res, sc):
 
     # together
     stores = [[] for _ in range(sc.nb)]
-    flow = make_flow(sc.n, sc.ctx_class)
+    flow = make_flow(sc.n, sc.ctx_class, sc.shape)
     together, err = guarded(lambda: drive(sc, list(range(sc.nb)), flow, stores, res), "together")
     log.ev("op", "together", d)
     # alone
     alone = []
     for b in range(sc.nb):
         st = [[] for _ in range(sc.nb)]
-        out, e2 = guarded(lambda b=b, st=st: drive(sc, [b], make_flow(sc.n, sc.ctx_class), st), "alone")
+        out, e2 = guarded(lambda b=b, st=st: drive(sc, [b], make_flow(sc.n, sc.ctx_class, sc.shape), st), "alone")
         log.ev("op", "alone", b)
         alone.append((out, e2))
     if err is not None:
@@ -558,7 +629,7 @@ def run_split(tape, res, sc):
 # (b) accumulators under scribble faults
 
 ACCS = ["Sum", "DSum", "Mean", "MeanSum", "VarianceMeanCount", "Vectorize", "Count", "Histogram",
-        "SplitIntoBins", "VectorizeStore", "Graph"]
+        "SplitIntoBins", "VectorizeStore", "Graph", "SplitIntoBinsMulti"]
 WRAPPERS = ["bare", "bare", "FillComputeSeq", "Split", "Zip", "FillRequest"]
 
 
@@ -587,6 +658,11 @@ def make_acc(name):
         return lena.structures.Histogram([0, 2, 4, 8])
     if name == "SplitIntoBins":
         return lena.structures.SplitIntoBins(lena.math.Sum(), lena.variables.Variable("x", lambda x: x),
+                                             [0, 2, 4, 8])
+    if name == "SplitIntoBinsMulti":
+        # the sequence of every cell yields two results per compute: two histograms per compute
+        cell = lena.core.Split([lena.math.Sum(), lena.flow.Count("in_cell")])
+        return lena.structures.SplitIntoBins(cell, lena.variables.Variable("x", lambda x: x),
                                              [0, 2, 4, 8])
     raise ValueError(name)
 
